@@ -13,6 +13,7 @@ which call and whether it raised.  The trace tokens are those of ocaml/dC10.ml.
 """
 import asyncio
 import random
+import sys
 
 from h2.exceptions import TooManyStreamsError
 from h2.events import RequestReceived
@@ -63,6 +64,7 @@ class CallState:
         self.exit_trailers = None  # None | 'ok' | 'nonok'   (trailers written while exiting)
         self.nonok_sent = False    # non-OK trailers were written (explicitly or while exiting)
         self.sh_at_exit = None     # server h2 letter right after the handler was released
+        self.exit_exc = None       # class of the exception leaving request_handler ('BaseException' | 'Exception' | None)
         self.pstream = None        # server protocol.Stream
 
 
@@ -285,8 +287,14 @@ def wrap_server(run, sproto):
             if present and not st[c].released:
                 st[c].released = True
                 s = st[c]
-                werr = getattr(getattr(stream, 'wrapper', None), '_error', None)
-                if s.hend in (None, 'BaseException') and not (s.hend == 'BaseException' and werr is not None):
+                # request_handler releases in its `finally`: the exception that is leaving it (if any) is
+                # visible here.  A BaseException that is not an Exception means that nothing terminal was
+                # sent by Stream.__aexit__: it either came out of the handler body (D4) or landed inside
+                # __aexit__ while send_trailing_metadata was waiting for write_ready (D48).  No exception
+                # context and no recorded end = the task was cancelled before its first step.
+                exc = sys.exc_info()[1]
+                s.exit_exc = None if exc is None else ('Exception' if isinstance(exc, Exception) else 'BaseException')
+                if s.exit_exc == 'BaseException' or s.hend is None:
                     kind = 'base'
                 elif s.exit_trailers == 'nonok':
                     kind = 'err'
@@ -757,8 +765,11 @@ def leak_class(run, c):
     frame = 'none' if not (s.s_end_sent or s.s_rst_sent) else ('end' if s.s_end_sent else 'rst')
     werr = getattr(getattr(s.pstream, 'wrapper', None), '_error', None)
     hend = s.hend or ('BaseException' if s.released else 'running')   # never ran = cancelled before its first step
+    # the handler body had ended (returned / raised an Exception) and a BaseException still left
+    # request_handler: the cancellation hit Stream.__aexit__ while it was sending the terminal response
+    interrupted = s.hend in ('return', 'Exception') and s.exit_exc == 'BaseException'
     return {'handler_end': hend, 'terminal_frame': frame,
-            'reset_received': isinstance(werr, StreamTerminatedError)}
+            'reset_received': isinstance(werr, StreamTerminatedError), 'aexit_interrupted': interrupted}
 
 
 def check(run, snap):
